@@ -386,8 +386,10 @@ def t9_exponent_of_a_rational(ctx: Ctx):
                     overrides={'_cvt_to_real': lambda x: x, 'is_dyadic': lambda x: False, 'RealFloat.from_int': lambda n: n, 'ctx.round': lambda v, **k: v})
         try:
             got: object = it.call_function(fn, [q, 'CTX'])
-        except ShapeError:
-            raise
+        except ShapeError as ex:
+            if 'table function raises' not in str(ex):
+                raise
+            got = 'raises'
         except Exception as ex:
             got = f'raises {type(ex).__name__}'
         want = 0
